@@ -1883,6 +1883,20 @@ def gen_Validation(repo):
     L.append("def systemSpaceChecksEnv : Bool := %s" % ("true" if env_checked else "false"))
     L.append("def systemSpaceEnvTests : List String := %s\n" % lean_list([lean_str(t) for t in env_test]))
 
+    # ---- engine.cpp: how keywords are compared, and how LibRDEngine.setup surfaces the native error codes
+    eng = _cpp(repo, "engine.cpp")
+    L.append("/-- body of `CompareStr(str1, str2)` in engine.cpp (normalised) -/")
+    L.append("def compareStrBody : String := %s" % lean_str(re.sub(r"\s+", "", cpp_function_body(eng, r"bool\s+CompareStr\s*\([^)]*\)\s*"))))
+    lre = PySrc(repo, "src/strengths/librdengine.py")
+    codes = []
+    for fname in ("_setup_graph", "_setup_grid"):
+        fn = _class_func(lre, "LibRDEngine", fname)
+        codes.append([t for t in _raise_tests(lre, fn) if t.startswith("res==")])
+    if not codes[0] or codes[0] != codes[1]:
+        raise AnchorLost("librdengine.py: error codes of engineexport_initialize_* turned into exceptions")
+    L.append("/-- `LibRDEngine._setup_grid/_setup_graph`: return codes of the native initialisation that raise -/")
+    L.append("def engineErrorCodes : List String := %s\n" % lean_list([lean_str(t) for t in codes[0]]))
+
     # ---- coarse-graining map rules, state-index guard
     cg = PySrc(repo, "src/strengths/coarsegrain.py")
     L.append("/-- raise conditions of `check_index_map_validity`, in order -/")
